@@ -4,9 +4,16 @@ import json
 import os
 
 ROOT = os.path.dirname(os.path.abspath(__file__))
-rows = []
+rows, rows2 = [], []
 for d in sorted(glob.glob(os.path.join(ROOT, "seeded", "*", ""))):
     m = json.load(open(d + "meta.json"))
+    if m.get("round") == 2:
+        det = (m.get("detection") or {}).get("quick") or {}
+        fp = (m.get("detection") or {}).get("first-pass") or {}
+        rows2.append((os.path.basename(d.rstrip("/")), m["property"], (m.get("summary") or "").replace("|", "/").replace("\n", " ")[:260], (m.get("needs_to_manifest") or "").replace("|", "/").replace("\n", " ")[:200],
+                      "detected" if fp.get("detected") else ("harness error" if fp.get("exit") == 3 else "missed"),
+                      ("detected (%d VIOLATION lines)" % det.get("violation_lines", 0)) if det.get("detected") else (m.get("outside_claim") or f"NOT detected ({det.get('exit')})")))
+        continue
     det = (m.get("detection") or {}).get("quick") or {}
     if m.get("neutralised_by_fix"):
         pc = m["detection"].get("pinned-commit", {})
@@ -18,8 +25,8 @@ txt = ["## 14. Seeded defects: which check catches which change", "",
        "suite, and needs something specific to manifest. Each was then verified here in a fresh scratch worktree: its demonstration",
        "passes on the clean tree and fails with the patch, and the full suite gives exactly the baseline failure list. They are kept",
        "under `seeded/<id>/` (patch.diff, demo.py, meta.json); `tools_mutant.sh <patch> <CNN>` runs a check against a scratch worktree",
-       "with the patch applied (never /repo), `tools_seeded_matrix.sh` fills `meta.json:detection`. 31 changes are kept (the 32nd,",
-       "C01-B, is the same change as C16-A).  Result of the quick tier of the targeted property's check on the repaired tree:", "",
+       "with the patch applied (never /repo), `tools_seeded_matrix.sh` fills `meta.json:detection`. 31 first-round changes are kept (the 32nd,",
+       "C01-B, is the same change as C16-A); the second round follows below.  Result of the quick tier of the targeted property's check on the repaired tree:", "",
        "| seeded change | what it does | needs, to manifest | targeted check (quick tier) |", "|---|---|---|---|"]
 for r in rows:
     txt.append(f"| {r[0]} | {r[2]} | {r[3]} | {r[1]}: {r[4]} |")
@@ -47,6 +54,13 @@ txt += ["", f"{nd} of {len(rows)} are reported with a replayed witness (exit 1 a
         "in the Python unpack kernel and `reshape` for `view` in the integer GEMM wrapper. Run with `tools_mutant.sh` against C12, C01,",
         "C02, C03, C16, C04, C07: every check exits 0 with no VIOLATION line (the first of them exposed the C12 tolerance false alarm",
         "described in section 13, which was corrected).", ""]
+txt += open(os.path.join(ROOT, "seeded", "ROUND2.md")).read().rstrip().split("\n") + ["",
+        "| seeded change (round 2) | what it does | needs, to manifest | first pass | after strengthening (quick tier) |", "|---|---|---|---|---|"]
+for r in rows2:
+    txt.append(f"| {r[0]} | {r[2]} | {r[3]} | {r[4]} | {r[1]}: {r[5]} |")
+nd2 = sum(1 for r in rows2 if r[5].startswith("detected"))
+nf2 = sum(1 for r in rows2 if r[4] == "detected")
+txt += ["", f"Round 2: {nf2} of {len(rows2)} were reported by the checks as they stood before the round; {nd2} of {len(rows2)} are reported now.", ""]
 s = open(os.path.join(ROOT, "DESIGN.md")).read()
 if "## 14. Seeded defects" in s:
     s = s[: s.index("## 14. Seeded defects")]
